@@ -60,14 +60,17 @@ pub fn unhex(s: &str) -> Vec<u8> {
 	(0..s.len() / 2).map(|i| u8::from_str_radix(&s[2 * i..2 * i + 2], 16).unwrap()).collect()
 }
 
-/// run a closure, mapping a panic to Err(message)
+pub static LAST_PANIC_LOC: std::sync::Mutex<String> = std::sync::Mutex::new(String::new());
+
+/// run a closure, mapping a panic to Err(message + source location of the panic)
 pub fn guarded<T>(f: impl FnOnce() -> T) -> Result<T, String> {
 	match std::panic::catch_unwind(std::panic::AssertUnwindSafe(f)) {
 		Ok(v) => Ok(v),
 		Err(e) => {
 			let msg = if let Some(s) = e.downcast_ref::<String>() { s.clone() }
 				else if let Some(s) = e.downcast_ref::<&str>() { s.to_string() } else { "panic".to_string() };
-			Err(msg)
+			let loc = LAST_PANIC_LOC.lock().map(|g| g.clone()).unwrap_or_default();
+			Err(if loc.is_empty() { msg } else { format!("{msg} [at {loc}]") })
 		}
 	}
 }
